@@ -69,6 +69,24 @@ func (c *Ctx) ruleDisabled(rule string) {
 		}
 		ei := core.ErrorResultIndex(fn.Signature)
 		enabled := core.MustHold(fn, c.enabledFact(fn, memo))
+		// the producer does not always supply the property: its property is not required, or is disabled itself (it
+		// refuses to emit any value that uses it - and a schema stays compatible with itself)
+		neverSupplied := core.MustHold(fn, func(cond core.Cond) bool {
+			switch x := cond.V.(type) {
+			case *ssa.Call:
+				callee := x.Call.StaticCallee()
+				return !cond.True && callee != nil && callee.Name() == "Required" && len(x.Call.Args) == 1 && x.Call.Args[0] != ssa.Value(fn.Params[0])
+			case *ssa.UnOp:
+				if fa, ok := x.X.(*ssa.FieldAddr); ok && cond.True && fa.X != ssa.Value(fn.Params[0]) {
+					if p, ok := fa.X.Type().Underlying().(*types.Pointer); ok {
+						if st, ok := p.Elem().Underlying().(*types.Struct); ok && st.Field(fa.Field).Name() == "Disabled" {
+							return true
+						}
+					}
+				}
+			}
+			return false
+		})
 		k := key(rule, c.M.Key(fn), "a disabled property does not accept a producer that requires it")
 		bad, n := "", 0
 		for _, r := range core.ReturnsOf(fn) {
@@ -80,15 +98,7 @@ func (c *Ctx) ruleDisabled(rule string) {
 				continue
 			}
 			n++
-			notRequired := false
-			for _, cond := range core.CondsAt(r.Block()) {
-				if call, ok := cond.V.(*ssa.Call); ok && !cond.True {
-					if callee := call.Call.StaticCallee(); callee != nil && callee.Name() == "Required" && len(call.Call.Args) == 1 && call.Call.Args[0] != ssa.Value(fn.Params[0]) {
-						notRequired = true
-					}
-				}
-			}
-			if !(enabled[r.Block()] || c.isEnablednessHelperCall(e, fn, memo) || notRequired) {
+			if !(enabled[r.Block()] || c.isEnablednessHelperCall(e, fn, memo) || neverSupplied[r.Block()]) {
 				bad = c.M.InstrPos(r)
 			}
 		}
@@ -96,7 +106,7 @@ func (c *Ctx) ruleDisabled(rule string) {
 		case n == 0:
 			c.R.Unresolved(rule, "accepting returns in the schema-mode part of PropertySchema.ValidateCompatibility")
 		case bad == "":
-			c.R.Ok(rule, k, c.M.Pos(fn.Pos()), "schema-mode compatibility of a property", sprintf("%d accepting returns: each carries the disabled rule's verdict, is reached with Disabled == false, or only where the producer's property is not required", n))
+			c.R.Ok(rule, k, c.M.Pos(fn.Pos()), "schema-mode compatibility of a property", sprintf("%d accepting returns: each carries the disabled rule's verdict, is reached with Disabled == false, or only where the producer's property is not required or is disabled itself", n))
 		default:
 			c.R.Bad(rule, k, bad, "a disabled property is reported compatible with a producer that requires the property",
 				"every value such a producer emits sets the property, and Unserialize, Validate, Serialize and the data-mode check of the consumer refuse every value that does: the producer can never be consumed")
